@@ -32,7 +32,7 @@ RULE = (
     "case = {use_batching, max_batch_size 1..12, max_batch_hold in {0,0.01,0.5}, cache in {off, in_memory|filesystem x "
     "md5|hash}, items (1-3 chunks for add_item/add_items, then build), 1-40 requests in 1-8 arrival groups (offsets from a "
     "grid with coincidences or arbitrary floats; ops: public search(text), _batch_get_embeddings(text), "
-    "_get_embeddings(list with duplicates/empty strings/empty list)), latency of the i-th model call in {0..1s}}; texts from a "
+    "_get_embeddings(list with duplicates/empty strings/empty list; in a fifth of the cases one list of 17-129 texts)), latency of the i-th model call in {0..1s}}; texts from a "
     "12-element pool (incl. '', unicode) plus generated ones. Run on a virtual-time loop; the fake model records every batch "
     "(texts, virtual start/end). A small grid of bursts (n simultaneous requests around max_batch_size x latency orders) is "
     "enumerated. Non-trivial = at least two model calls in flight at the same time, or a request arrived while the batching "
@@ -178,6 +178,11 @@ def _case(draw):
                 ts = [draw(qtext)]
             requests.append({"at": at, "op": o, "texts": ts})
     requests = requests[:40]
+    if draw(st.integers(0, 4)) == 0:
+        # one long list request (size-dependent paths: chunking, paging): many distinct texts with a few duplicates
+        n = draw(st.sampled_from([17, 31, 32, 33, 40, 64, 65, 100, 129]))
+        m = draw(st.sampled_from([n, n, n - 3, max(2, n // 2)]))
+        requests.insert(draw(st.integers(0, len(requests))), {"at": draw(st.sampled_from(OFFSETS)), "op": "list", "texts": [f"long text {j % m}" for j in range(n)]})
     latencies = draw(st.lists(st.sampled_from(LATENCIES), min_size=1, max_size=6))
     return {
         "use_batching": use_batching,
@@ -411,6 +416,8 @@ def prop(case):
     ends = [c["s1"] for c in req_calls]
     if ends != sorted(ends):
         labels.append("out-of-order-completion")
+    if any(len(r["texts"]) > 16 for r in case["requests"]):
+        labels.append("long-list-request")
     view = {
         "config": cfg,
         "items": case["items"],
